@@ -139,7 +139,8 @@ pub fn world() -> Hierarchy<Arc<Relation>> {
 /// a CTE named exactly like a registered table shadows it: the reference denotes the CTE's column, never the table's
 fn gen_scope_cte_shadow(rng: &mut Rng) -> J {
     let tj = rng.below(3) as usize;                         // the table whose name the CTE takes
-    let ti = (tj + 1 + rng.below(2) as usize) % 3;          // the CTE reads another table
+    // the CTE reads another table — or, one time in five, the very table whose name it takes (in a non-recursive WITH the body still sees the table)
+    let ti = if rng.chance(1, 5) { tj } else { (tj + 1 + rng.below(2) as usize) % 3 };
     let ci2 = rng.below(3) as usize; let c2 = TABLES[ti].1[ci2];
     let ci = rng.below(3) as usize; let col = TABLES[tj].1[ci];   // the CTE's column carries the name of a column of the shadowed table
     let name = TABLES[tj].0;
